@@ -165,7 +165,13 @@ class WertheimThiele(Sub):
 
 def dilute_spec():
     def pot(kT):
-        return S._potential(kT).map(lambda d: [d[0], {k: v for k, v in d[1].items()}])
+        # at vanishing density any interaction strength converges: tails up to 3 kT of either sign (where allowed)
+        def stronger(d, f):
+            p = {k: v for k, v in d[1].items()}
+            if 'epsilon' in p:
+                p['epsilon'] = float('%.4g' % (p['epsilon'] * f))
+            return [d[0], p]
+        return st.tuples(S._potential(kT), st.sampled_from([1.0, 1.0, 2.5, 5.0])).map(lambda t: stronger(*t))
     return st.tuples(specs.logfloat(-0.15, 0.48, 3), specs.logfloat(-3, -2, 3), st.sampled_from(['PY', 'HNC', 'MSA', 'PY']), st.booleans(),
                      st.sampled_from([0.05, 0.04, 0.1]), specs.logfloat(-12, -7, 3)).flatmap(
         lambda t: pot(t[0]).map(lambda p: {'kT': t[0], 'rho0': t[1], 'closure': t[2], 'flag': True if t[2] == 'MSA' else t[3], 'dr': t[4], 'potential': p,
